@@ -72,9 +72,10 @@ CHECKS["C08"] = dict(
 CHECKS["C21"] = dict(
    text="Machine-checked proof (Coq), every width and every operand: strided-interval add is sound (C21_add); sub and neg are sound when "
         "the subtracted interval's upper bound is one of its members (C21_sub, C21_neg) and NOT otherwise (C21_sub_unaligned_refuted, "
-        "witness {0} - 2[0,1] at 2 bits); normalisation keeps every member (C21_normalize). The model's record-level operations call "
+        "witness {0} - 2[0,1] at 2 bits); normalisation keeps every member (C21_normalize); zero_extend is sound for an interval "
+        "that does not wrap around (C21_zext) and not for one that does (C21_zext_wrapping_refuted). The model's record-level operations call "
         "the integer helpers re-translated from strided_interval.py on every run and are compared result-for-result with the real code. "
-        "All other transfer functions (mul, div, mod, bitwise, shifts, extension, extraction, concat, comparisons) are NOT modelled: "
+        "All other transfer functions (mul, div, mod, bitwise, shifts, sign extension, extraction, concat, comparisons) are NOT modelled: "
         "they are swept directly -- exhaustively at widths 1-2 (1-3 in the thorough tier), sampled above -- and are unsound on the "
         "pinned tree in 23 operations; those are known findings identified by (operation, input).",
    design="5/C21", technique="Coq soundness proofs for add/sub/neg over translated helpers; exhaustive small-width sweep of the real code for the rest",
@@ -169,7 +170,9 @@ CHECKS["C12"] = dict(
    text="Machine-checked proof (Coq) of the principle SolverComposite rests on, for every set of constraint groups: if the groups share no "
         "variable, the whole is satisfiable iff every group is (C12_sat, by gluing assignments), and the values an expression takes over "
         "all models are its values over the models of the groups it depends on provided the remaining groups are satisfiable (C12_eval); "
-        "that premise is necessary (C12_eval_needs_sat -- the defect repaired in _ensure_sat was exactly its omission). The bookkeeping of "
+        "that premise is necessary (C12_eval_needs_sat -- the defect repaired in _ensure_sat was exactly its omission); the groups the "
+        "model of split() produces are pairwise variable-disjoint, so the principle applies to them (C12_split_independent, "
+        "C12_split_sat). The bookkeeping of "
         "CompositeFrontend (child creation, copy-on-write, reabsorption, merged-solver cache) is NOT modelled: after every step of random "
         "histories (add, queries with/without extras, branch, simplify, split, combine, merge on trees of composites) the children are checked "
         "to be together equivalent to what was added, and every answer is compared with enumeration of all 4096 assignments (testing).",
@@ -191,11 +194,12 @@ CHECKS["C15"] = dict(
         "old and new constraints (C15_add, with the invariant that dropped duplicates are implied); merge has exactly the models of some "
         "condition_i with the i-th constraint set (C15_merge), with an ancestor the ancestor's models satisfying some condition "
         "(C15_merge_ancestor); combine has the models of all sets (C15_combine); split's grouping puts every conjunct with a variable in exactly "
-        "one group, no variable in two groups, and all variables of a conjunct in its group (C15_split_groups). Tie: extracted model vs real "
+        "one group, no variable in two groups, and all variables of a conjunct in its group (C15_split_groups), and a list of well-formed "
+        "constraints has exactly the models of its groups together with the variable-free rest (C15_split_exact). Tie: extracted model vs real "
         "Solver/SolverCacheless constraint lists. SolverComposite's own merge/split/combine, Z3 and the caches are not modelled: all classes "
         "are judged against enumeration of the 4096 assignments (model sets, satisfiable, eval).",
    design="5/C15", technique="Coq proofs over a hand-written frontend model; constraint-list correspondence; enumeration of model sets",
-   note="Trusted: Coq kernel; Model/Frontend.v. Known finding: SolverComposite keeps a concrete False only as a flag. Three composite merge defects repaired.")
+   note="Trusted: Coq kernel; Model/Frontend.v. Composite merge/split defects repaired (see KNOWN_FINDINGS.txt fixed: lines).")
 
 CHECKS["C26"] = dict(
    text="Machine-checked proof (Coq): the decimal numeral codec through which bitvector values of any width travel between claripy and Z3 "
